@@ -12,6 +12,10 @@ def run(report, replay=None):
     plan = [('general', n, 30), ('routines', n // 4, 30), ('loops', n // 4, 25), ('matrix', n // 5, 25),
             ('units', n // 5, 25), ('print', n // 3, 25), ('nested', n // 5, 25), ('tod', n // 8, 20)]
     lang_props.run_profiles(report, plan, corpus.records())
+    # two scripts at once, each one judged as if it ran alone (the web front end's background scripts)
+    import random
+    from harness import c19
+    c19.concurrent_scripts(report, random.Random(report.seed + 1), 100 if report.tier == 'thorough' else 24)
     report.assumptions += lang_props.ASSUMPTIONS
 
 
